@@ -151,7 +151,8 @@ def gather(tier: str, seed: int, want: Callable[[Model, gen.Unit, str, corpus.De
                 if not kinds:
                     continue
                 cls = mdl.cost_class(t)
-                if cls == 'heavy' and tier == 'quick' and not (d.core and set(kinds) <= {'c03', 'c05'}):
+                if cls == 'heavy' and tier == 'quick' and not (d.core and set(kinds) <= {'c03', 'c05'}
+                                                              and (d.core_kinds or {}).get(t)):
                     info.setdefault('heavy_left_to_thorough', []).append(f'{u.desc_id}/{t}')
                     continue
                 L = input_bound(mdl, t, tier, cls)
@@ -160,9 +161,11 @@ def gather(tier: str, seed: int, want: Callable[[Model, gen.Unit, str, corpus.De
                     continue
                 for k in kinds:
                     it_ = KItem(u, mdl, t, k, L, cls, d.family)
-                    if d.core and tier == 'quick' and not d.id.endswith('_be'):
+                    is_core = d.core and tier == 'quick' and not d.id.endswith('_be') and \
+                        (d.core_kinds is None or k in d.core_kinds.get(t, []))
+                    if is_core:
                         core_items.append(it_)
-                    else:
+                    elif not (d.core and tier == 'quick'):
                         cands.setdefault((d.family, cls), []).append(it_)
     rnd = random.Random(seed)
     chosen: List[KItem] = list(core_items)
